@@ -555,6 +555,8 @@ def solve_one(
             if int(stacks_top[0]) + 1 >= shr_domains_stack.shape[0] - STACK_MARGIN:
                 raise IndexError("the choice points stack is full, stack_max_height should be increased")
             dom_idx = var_heuristic_fct(var_heuristic_params, decision_domains, shr_domains_stack, stacks_top)
+            if dom_idx < 0:
+                raise ValueError("all decision domains are instantiated but the problem is not solved")
             events = dom_heuristic_fct(
                 dom_heuristic_params,
                 shr_domains_stack,
